@@ -1,0 +1,39 @@
+//go:build verif
+
+// Contracts for the gocv verifier (comment-only file; see /verif/DESIGN.md §4).
+package domain_set
+
+// The loaders of a domain set (C12): every expression is added as one rule; every rule FILE is
+// read and loaded on its own (its last line ends where the file ends — rule text of two files is
+// never glued together); the first failure stops the load.
+//@ func LoadFile [C12]
+//@   log domainLoadFile
+//@   requires m != nil
+//@   modifies *
+//@   ensures len(f) > 0 ==> calls(osReadFile) == 1 && arg(osReadFile, 0, 0) == f
+//@   ensures len(f) == 0 ==> calls(osReadFile) == 0 && result == nil
+//@   ensures len(f) > 0 && ret(osReadFile, 0, 1) != nil ==> result != nil && calls(loadFromTextReader) == 0
+//@   ensures len(f) > 0 && ret(osReadFile, 0, 1) == nil ==> calls(bytesNewReader) == 1 && arg(bytesNewReader, 0, 0) == ret(osReadFile, 0, 0) && calls(loadFromTextReader) == 1 && arg(loadFromTextReader, 0, 0).val == m && arg(loadFromTextReader, 0, 1).val == ret(bytesNewReader, 0) && result == ret(loadFromTextReader, 0)
+//@ func LoadFiles [C12]
+//@   log domainLoadFiles
+//@   requires m != nil
+//@   modifies *
+//@   never osReadFile, loadFromTextReader
+//@   ensures result == nil ==> it0 == len(fs)
+//@   loop 0:
+//@     invariant m != nil && 0 <= it0
+//@     each iter_calls(domainLoadFile) == 1 && iter_arg(domainLoadFile, 0, 0) == f && iter_arg(domainLoadFile, 0, 1) == m && iter_ret(domainLoadFile, 0) == nil
+//@ func LoadExps [C12]
+//@   log domainLoadExps
+//@   requires m != nil
+//@   modifies *
+//@   ensures result == nil ==> it0 == len(exps)
+//@   loop 0:
+//@     invariant m != nil && 0 <= it0
+//@     each iter_calls(mixAdd) == 1 && iter_arg(mixAdd, 0, 0) == m && iter_arg(mixAdd, 0, 1) == exp && iter_ret(mixAdd, 0) == nil
+//@ func LoadExpsAndFiles [C12]
+//@   requires m != nil
+//@   modifies *
+//@   ensures calls(domainLoadExps) == 1 && arg(domainLoadExps, 0, 0) == exps && arg(domainLoadExps, 0, 1) == m
+//@   ensures result == nil ==> calls(domainLoadFiles) == 1 && arg(domainLoadFiles, 0, 0) == fs && arg(domainLoadFiles, 0, 1) == m && ret(domainLoadExps, 0) == nil && ret(domainLoadFiles, 0) == nil
+//@   ensures ret(domainLoadExps, 0) != nil ==> result != nil && calls(domainLoadFiles) == 0
